@@ -25,6 +25,10 @@ type Env struct {
 	loopHeader *ssa.BasicBlock
 	probe      map[string]*Term // quantifier probe pass: variable name -> offset of the first slice it indexes
 	head       *State           // loop-head snapshot (for athead(e) in ghost updates and invariants)
+	// calleeWit is non-nil while a callee's contract is evaluated at a call site: witnesses of native models used inside the
+	// callee (SortedKeys_pos, Slice_pi, Slice_inv) are existential there - created on first mention, shared by child
+	// environments (pred bodies), never the caller's own witness of the same name
+	calleeWit map[string]Value
 }
 
 type nilVal struct{}
@@ -233,6 +237,14 @@ func (env *Env) ident(name string) TV {
 		return mathInt(bigLit(new(big.Int).Sub(pow2(63), big.NewInt(1))))
 	case "allocTop":
 		return mathInt(env.cur.allocTop)
+	}
+	if env.calleeWit != nil && (name == "SortedKeys_pos" || name == "Slice_pi" || name == "Slice_inv") {
+		w, ok := env.calleeWit[name]
+		if !ok {
+			w = Sc{env.ex.ctx.Fresh("wit_callee_"+name, arrSort(SInt, SInt))}
+			env.calleeWit[name] = w
+		}
+		return TV{w, nil}
 	}
 	if g, ok := env.cur.ghost[name]; ok {
 		return TV{g, nil}
